@@ -229,6 +229,41 @@ impl<F: RichField + Extendable<D>, const D: usize> CircuitBuilder<F, D> {
             "Number of query rounds does not match config."
         );
 
+        // A proof of `current_degree_bits` has a final polynomial of `2^final_bits` coefficients,
+        // `final_bits = current_degree_bits - (sum of the arities of the active steps)`, as the
+        // native `validate_fri_proof_shape` requires: the coefficients above that length must be
+        // zero. Otherwise, for most degrees below the maximum, the final polynomial has at least as
+        // many coefficients as the last domain has points and the low-degree test is vacuous.
+        {
+            let mut final_bits = current_degree_bits;
+            let mut idx = degree_sub_one_bits_vec.len() - params.total_arities();
+            for &arity_bits in &params.reduction_arity_bits {
+                let active = degree_sub_one_bits_vec[idx];
+                let sub = self.mul_const(F::from_canonical_usize(arity_bits), active.target);
+                final_bits = self.sub(final_bits, sub);
+                idx += arity_bits;
+            }
+            let max_final_bits = params.final_poly_bits();
+            let exp_bits = (usize::BITS - max_final_bits.leading_zeros()) as usize;
+            let two = self.two();
+            let final_len = self.exp(two, final_bits, exp_bits);
+            // `final_len` is a power of two: its bits are the one-hot encoding of `final_bits`.
+            let one_hot = self.split_le(final_len, max_final_bits + 1);
+            let one = self.one();
+            let mut allowed = self.zero();
+            for k in (0..max_final_bits).rev() {
+                // allowed = [final_bits > k]
+                allowed = self.add(allowed, one_hot[k + 1].target);
+                let not_allowed = self.sub(one, allowed);
+                for j in (1usize << k)..(1usize << (k + 1)) {
+                    for limb in proof.final_poly.0[j].0 {
+                        let prod = self.mul(limb, not_allowed);
+                        self.assert_zero(prod);
+                    }
+                }
+            }
+        }
+
         let precomputed_reduced_evals = with_context!(
             self,
             "precompute reduced evaluations",
